@@ -2,7 +2,6 @@ package stackh
 
 import (
 	"bytes"
-	"fmt"
 	"strconv"
 	"strings"
 	"time"
@@ -58,21 +57,16 @@ func Build(name string) *Scenario {
 	}
 	switch parts[0] {
 	case "e2e":
-		sc.Rounds = []Round{{C2S: parseInts(p["c2s"]), S2C: parseInts(p["s2c"]), Closer: closer}}
+		sc.Round = Round{C2S: parseInts(p["c2s"]), S2C: parseInts(p["s2c"]), Closer: closer}
+		sc.Rounds = 1
 		sc.Monitors = append(sc.Monitors, monStreamPrefix, monCiphertextOnly)
 		sc.Final = append(sc.Final, finalTransfer)
 	case "sess":
-		n := 2
+		sc.Rounds = 2
 		if v, ok := p["rounds"]; ok {
-			n, _ = strconv.Atoi(v)
+			sc.Rounds, _ = strconv.Atoi(v)
 		}
-		for i := 0; i < n; i++ {
-			c := closer
-			if p["closer"] == "alt" {
-				c = []string{"client", "server"}[i%2]
-			}
-			sc.Rounds = append(sc.Rounds, Round{C2S: []int{10 + i}, S2C: []int{20 + i}, Closer: c})
-		}
+		sc.Round = Round{C2S: []int{10}, S2C: []int{20}, Closer: closer}
 		if _, ok := p["intruder"]; ok {
 			sc.Intruder = "after"
 		}
@@ -81,40 +75,41 @@ func Build(name string) *Scenario {
 	default:
 		panic("unknown stack scenario " + name)
 	}
-	sc.Goal = func(w *World) bool { return w.allLoopsDone() }
+	sc.MaxAttempts = sc.Rounds + 6
+	// Goal: both sides have completed the wanted number of sessions and the
+	// relay has been reliable for a while; or nothing has moved for a long
+	// time after the last fault.
+	sc.Goal = func(w *World) bool {
+		done := w.successes(w.sessC) >= sc.Rounds && w.successes(w.sessS) >= sc.Rounds
+		if sc.Intruder != "" && !w.intruderFinished() {
+			done = false
+		}
+		if done {
+			return true
+		}
+		return w.s.Now() >= w.lastFault+150*time.Second && w.s.Now() >= 150*time.Second
+	}
 	sc.IdleAfter = 3 * time.Second
-	sc.Cfg = vrt.Config{Horizon: 400 * time.Second, DrainTime: 20 * time.Second, NoStarve: true, MaxSteps: 400000}
+	sc.Cfg = vrt.Config{Horizon: 500 * time.Second, DrainTime: 20 * time.Second, NoStarve: true, MaxSteps: 600000}
 	return sc
 }
 
-// sessionsOfRound returns the handshake-complete sessions of a round.
-func sessionsOfRound(list []*Session, round int) *Session {
-	var out *Session
-	for _, s := range list {
-		if s.HsDone && s.Round == round {
-			out = s
-		}
-	}
-	return out
-}
-
-// monStreamPrefix is the C05 safety oracle: per round and direction the bytes
-// read are a prefix of the bytes written.
+// monStreamPrefix is the C05 safety oracle: what a session has read is a
+// prefix of what the peer writes in a round.
 func monStreamPrefix(w *World) {
 	w.mu.Lock()
 	defer w.mu.Unlock()
-	for g := range w.sc.Rounds {
-		c, s := sessionsOfRound(w.sessC, g), sessionsOfRound(w.sessS, g)
-		if c == nil || s == nil {
-			continue
+	c2s, s2c := expected("C2S", w.sc.Round.C2S), expected("S2C", w.sc.Round.S2C)
+	for _, ss := range w.sessS {
+		if !bytes.HasPrefix(c2s, ss.Read) {
+			w.fail("stream/c2s-not-prefix", "server session %d read %d bytes that are not a prefix of what the client writes (first difference at %d)",
+				ss.Index, len(ss.Read), firstDiff(ss.Read, c2s))
 		}
-		if !bytes.HasPrefix(c.Written, s.Read) {
-			w.fail("stream/c2s-not-prefix", "round %d: the server read %d bytes that are not a prefix of the %d bytes the client wrote (first difference at %d)",
-				g, len(s.Read), len(c.Written), firstDiff(s.Read, c.Written))
-		}
-		if !bytes.HasPrefix(s.Written, c.Read) {
-			w.fail("stream/s2c-not-prefix", "round %d: the client read %d bytes that are not a prefix of the %d bytes the server wrote (first difference at %d)",
-				g, len(c.Read), len(s.Written), firstDiff(c.Read, s.Written))
+	}
+	for _, ss := range w.sessC {
+		if !bytes.HasPrefix(s2c, ss.Read) {
+			w.fail("stream/s2c-not-prefix", "client session %d read %d bytes that are not a prefix of what the server writes (first difference at %d)",
+				ss.Index, len(ss.Read), firstDiff(ss.Read, s2c))
 		}
 	}
 }
@@ -183,62 +178,65 @@ func monIntruder(w *World) {
 	}
 }
 
-// finalTransfer is the liveness half of C05: when relay faults have ceased,
-// every round either transferred everything or failed visibly.
+func (w *World) intruderFinished() bool {
+	w.mu.Lock()
+	defer w.mu.Unlock()
+	return w.intruderOn && w.loopsDone >= 1 && w.intruderDone
+}
+
+// finalTransfer is the liveness half of C05: the clean canonical run transfers
+// everything; after relay faults have ceased no session is left stalled
+// silently: it either completed or some call on it reported an error.
 func finalTransfer(w *World, x *vrt.Exec) {
 	if len(w.findings) > 0 {
 		return
 	}
 	w.mu.Lock()
 	defer w.mu.Unlock()
-	settled := w.endAt >= w.lastFault+100*time.Second || w.faults == 0
-	for g, rd := range w.sc.Rounds {
-		c, s := sessionsOfRound(w.sessC, g), sessionsOfRound(w.sessS, g)
-		wantC2S, wantS2C := 0, 0
-		for _, n := range rd.C2S {
-			wantC2S += n
+	okC, okS := 0, 0
+	for _, s := range w.sessC {
+		if s.Success {
+			okC++
 		}
-		for _, n := range rd.S2C {
-			wantS2C += n
+	}
+	for _, s := range w.sessS {
+		if s.Success {
+			okS++
 		}
-		complete := c != nil && s != nil && len(s.Read) == wantC2S && len(c.Read) == wantS2C &&
-			bytes.Equal(s.Read, c.Written) && bytes.Equal(c.Read, s.Written)
-		if complete {
-			w.reached[fmt.Sprintf("round%d-complete", g)] = true
-			continue
-		}
-		// visible failure: some side saw an error / a failed handshake
-		visible := false
-		for _, l := range [][]*Session{w.sessC, w.sessS} {
-			for _, ss := range l {
-				if ss.HsErr != "" || ss.ReadErr != "" || ss.WriteErr != "" {
-					visible = true
+	}
+	if okC >= w.sc.Rounds && okS >= w.sc.Rounds {
+		w.reached["all-rounds-complete"] = true
+	}
+	if w.faults == 0 && w.canonical && (okC < w.sc.Rounds || okS < w.sc.Rounds) {
+		w.fail("transfer/clean-run-incomplete", "no relay fault, canonical schedule: the client completed %d and the server %d of %d sessions", okC, okS, w.sc.Rounds)
+		return
+	}
+	settled := w.faults == 0 || w.endAt >= w.lastFault+100*time.Second
+	if !settled {
+		return
+	}
+	for _, l := range [][]*Session{w.sessC, w.sessS} {
+		for _, s := range l {
+			if s.Success || s.HsErr != "" || s.ReadErr != "" || s.WriteErr != "" {
+				if !s.Success {
+					w.reached["visible-failure"] = true
 				}
+				continue
 			}
-		}
-		if w.faults == 0 && w.canonical {
-			w.fail(fmt.Sprintf("transfer/clean-run-incomplete/round%d", g),
-				"no relay fault, canonical schedule: round %d did not transfer everything (client session %v, server session %v)", g, c != nil, s != nil)
+			if w.endAt-s.At < 100*time.Second {
+				continue
+			}
+			// Is the peer's matching attempt failed visibly? A server
+			// that sits in its handshake because no client came is
+			// waiting, not stalled.
+			if !s.HsDone && s.Side == "server" {
+				continue
+			}
+			w.fail("transfer/silent-stall/"+s.Side, "%s session %d (started %v, handshake done %v) has neither completed (read %d bytes) nor reported any error %v later, and the relay has been reliable for %v",
+				s.Side, s.Index, s.At, s.HsDone, len(s.Read), w.endAt-s.At, w.endAt-w.lastFault)
 			return
 		}
-		if !settled {
-			continue
-		}
-		if !visible {
-			w.fail(fmt.Sprintf("transfer/silent-stall/round%d", g),
-				"%v after the last relay fault round %d has neither completed (server read %d of %d, client read %d of %d) nor has any call on either side reported an error",
-				w.endAt-w.lastFault, g, lenOf(s), wantC2S, lenOf(c), wantS2C)
-			return
-		}
-		w.reached["visible-failure"] = true
 	}
-}
-
-func lenOf(s *Session) int {
-	if s == nil {
-		return -1
-	}
-	return len(s.Read)
 }
 
 // finalSessions is the reconnect / post-pairing half of C11.
@@ -248,40 +246,99 @@ func finalSessions(w *World, x *vrt.Exec) {
 	}
 	w.mu.Lock()
 	defer w.mu.Unlock()
-	if w.faults > 0 {
+	// 1. once the relay behaves, both sides get a fresh working connection
+	settled := w.faults == 0 || w.endAt >= w.lastFault+100*time.Second
+	if settled && w.faults > 0 {
+		for _, side := range []struct {
+			name string
+			list []*Session
+		}{{"client", w.sessC}, {"server", w.sessS}} {
+			fresh := false
+			for _, s := range side.list {
+				if s.Success && s.ClosedAt > w.lastFault {
+					fresh = true
+				}
+			}
+			if !fresh && len(w.storedByC) > 0 && len(w.storedByS) == 0 {
+				// The relay failed between the client's and the
+				// server's completion of the pairing handshake: the
+				// client has stored the server's key and moved to the
+				// key-derived rendezvous, the server has not.
+				w.fail("reconnect/half-completed-pairing/client-moved-server-did-not",
+					"a relay fault hit the last act of the pairing handshake: the client completed it, stored the server's key and now dials the key-derived rendezvous with KK; the server's handshake failed, so it keeps listening on the passphrase-derived rendezvous with XX; %v later they have not met again (%d client attempts)",
+					w.endAt-w.lastFault, len(w.sessC))
+				return
+			}
+			if !fresh {
+				w.fail("reconnect/no-working-connection-after-failure/"+side.name,
+					"%v after the last relay fault the %s has not had a single working connection again (%d attempts)",
+					w.endAt-w.lastFault, side.name, len(side.list))
+				return
+			}
+		}
+		w.reached["reconnected-after-fault"] = true
+	}
+	// 2. rendezvous and pattern of the successful sessions
+	var firstC, firstS *Session
+	for _, s := range w.sessC {
+		if s.Success && firstC == nil {
+			firstC = s
+		}
+	}
+	for _, s := range w.sessS {
+		if s.Success && firstS == nil {
+			firstS = s
+		}
+	}
+	if firstC == nil || firstS == nil {
 		return
 	}
-	var first [2]*Session
-	for g := range w.sc.Rounds {
-		c, s := sessionsOfRound(w.sessC, g), sessionsOfRound(w.sessS, g)
-		if c == nil || s == nil {
-			if w.canonical {
-				w.fail(fmt.Sprintf("reconnect/round%d-missing", g), "canonical schedule, no fault: round %d never got a working connection on both sides", g)
+	if firstC.SendSID != firstS.RecvSID || firstC.RecvSID != firstS.SendSID {
+		w.fail("rendezvous/sides-differ", "the first session: client and server use different stream ids")
+		return
+	}
+	if firstC.SendSID == firstC.RecvSID {
+		w.fail("rendezvous/directions-share", "both directions use the same stream id")
+		return
+	}
+	if w.sc.MaxVer >= 2 {
+		for _, side := range [][]*Session{w.sessC, w.sessS} {
+			first := firstC
+			if side[0].Side == "server" {
+				first = firstS
 			}
-			return
-		}
-		if c.SendSID != s.RecvSID || c.RecvSID != s.SendSID {
-			w.fail("rendezvous/sides-differ", "round %d: client and server use different stream ids", g)
-			return
-		}
-		if c.SendSID == c.RecvSID {
-			w.fail("rendezvous/directions-share", "round %d: both directions use the same stream id", g)
-			return
-		}
-		if g == 0 {
-			first = [2]*Session{c, s}
-			continue
-		}
-		if w.sc.MaxVer >= 2 {
-			if c.Pattern != "KK" || s.Pattern != "KK" {
-				w.fail("post-pairing/pattern", "round %d after a version-2 pairing: client uses %s, server uses %s (expected KK on both)", g, c.Pattern, s.Pattern)
-				return
+			for _, s := range side {
+				if s.Index <= first.Index || s.Conn == nil {
+					continue
+				}
+				if s.Pattern != "KK" {
+					w.fail("post-pairing/pattern/"+s.Side, "%s connection #%d after a version-2 pairing uses %s (expected KK)", s.Side, s.Index, s.Pattern)
+					return
+				}
+				if s.SendSID == first.SendSID {
+					w.fail("post-pairing/rendezvous-not-moved/"+s.Side, "%s connection #%d after the pairing still uses the passphrase-derived stream ids", s.Side, s.Index)
+					return
+				}
+				if s.Success {
+					w.reached["post-pairing-kk"] = true
+				}
 			}
-			if c.SendSID == first[0].SendSID || s.SendSID == first[1].SendSID {
-				w.fail("post-pairing/rendezvous-not-moved", "round %d after the pairing still uses the passphrase-derived stream ids", g)
-				return
+		}
+		// both sides moved to the same place
+		var lastC, lastS *Session
+		for _, s := range w.sessC {
+			if s.Success {
+				lastC = s
 			}
-			w.reached["post-pairing-kk"] = true
+		}
+		for _, s := range w.sessS {
+			if s.Success {
+				lastS = s
+			}
+		}
+		if lastC != firstC && lastS != firstS && (lastC.SendSID != lastS.RecvSID || lastC.RecvSID != lastS.SendSID) {
+			w.fail("post-pairing/sides-differ", "after the pairing client and server use different stream ids")
+			return
 		}
 	}
 	if w.sc.Intruder != "" {
